@@ -24,6 +24,26 @@ def pools(rng):
           ">1,<1", "<1,>=1"]
     P["constraint"] = [(s, parse_constraint(s)) for s in cs]
     P["constraint"] += [(f"({s})∩self", c.intersect(c)) for s, c in P["constraint"][:8]] + [(f"({s})∪self", c.union(c)) for s, c in P["constraint"][:8]]
+    # near misses: the same two bounds under every inclusivity, alone and paired, over bounds that are final, pre-, post- and
+    # dev-releases of one another (equal objects must be interchangeable: '<=2.0rc1' and '<2.0rc1' differ on 2.0rc1)
+    import gen_constraints as GC
+    near = []
+    fixed = [("1.0", "2.0rc1"), ("1.0.post1", "1.5.dev3"), ("1.0a1", "1.0")]
+    for k in range(6):
+        if k < len(fixed):
+            lo, hi = (Version.parse(x) for x in fixed[k])
+        else:
+            pool = sorted({Version.parse(x) for x in GC.gen_pool(rng, locals_=False)})
+            if len(pool) < 2: continue
+            lo, hi = sorted(rng.sample(pool, 2))
+        for b in (lo, hi):
+            near += [f"{op}{b.text}" for op in ("<", "<=", ">", ">=", "==", "!=")]
+        near += [f"{a}{lo.text},{b}{hi.text}" for a in (">", ">=") for b in ("<", "<=")]
+        near += [f"<{lo.text} || >{hi.text}", f"<={lo.text} || >{hi.text}", f"<{lo.text} || >={hi.text}", f"<={lo.text} || >={hi.text}"]
+    P["constraint_near"] = []
+    for s in dict.fromkeys(near):
+        try: P["constraint_near"].append((s, parse_constraint(s)))
+        except Exception: pass  # noqa
     gs = ["linux", "==linux", "= linux", "!=linux", "!=linux,!=win32", "!=win32,!=linux", "linux || win32", "win32||linux", "*", "'a' in", "'a' not in"]
     P["generic"] = [(s, gparse(s)) for s in gs]
     ms = ['python_version >= "3.8"', "python_version>='3.8'", 'python_version >= "3.8" and sys_platform == "linux"', 'sys_platform == "linux" and python_version >= "3.8"',
@@ -42,7 +62,7 @@ def same_meaning(kind, a, b, ienvs):
     from poetry.core.constraints.generic import Constraint
     if kind == "version":
         probes = I.critical_probes([a, b]); return all(a.allows(p) == b.allows(p) for p in probes)
-    if kind == "constraint":
+    if kind in ("constraint", "constraint_near"):
         probes = I.critical_probes(I.bounds_of(a) + I.bounds_of(b)); return all(a.allows(p) == b.allows(p) for p in probes)
     if kind == "generic":
         return all(a.allows(Constraint(p)) == b.allows(Constraint(p)) for p in ["linux", "win32", "a", "xay", "zz"])
@@ -86,7 +106,7 @@ def run(tier):
             try:
                 if kind == "version":
                     from poetry.core.constraints.version import Version; b = Version.parse(a.to_string())
-                elif kind == "constraint":
+                elif kind in ("constraint", "constraint_near"):
                     from poetry.core.constraints.version import parse_constraint
                     if a.is_empty(): continue
                     b = parse_constraint(str(a))
